@@ -37,21 +37,26 @@ extern "C" void harness() {
 #ifdef SEQLEN
     // sub-query with a concrete subset in a concrete iteration order (the union over all ordered subsets is the whole space)
     const unsigned sz = SEQLEN; static const unsigned seq[5] = {SEQ0, SEQ1, SEQ2, SEQ3, 0};
-    for (unsigned c = 0; c < NM; ++c) if (c < sz) { in[seq[c]] = 1; S.insert(seq[c]); }
+    for (unsigned c = 0; c < NM; ++c) if (c < sz) in[seq[c]] = 1;
+    vh_set_with_order(S, seq, sz);
 #else
     unsigned sz = nd(n + 1);
-    for (unsigned c = 0; c < NM; ++c) if (c < sz) { unsigned v = nd(n); ASSUME(!in[v]); in[v] = 1; S.insert(v); }
+    { unsigned seq[NM + 1]; for (unsigned c = 0; c < NM; ++c) if (c < sz) { unsigned v = nd(n); ASSUME(!in[v]); in[v] = 1; seq[c] = v; } vh_set_with_order(S, seq, sz); }
 #endif
     size_t induced = 0;
     for (unsigned i = 0; i < NM; ++i) for (unsigned j = (UND ? i : 0); j < NM; ++j) if (i < n && j < n && in[i] && in[j]) induced += C[i][j];
     if (sz == 0) REACH("empty subset"); if (sz == n && n) REACH("full subset"); if (sz && sz < n) REACH("proper subset");
     unsigned i = n ? nd(n) : 0, j = n ? nd(n) : 0;
 #ifdef PRE_REJECT
-    // an earlier request that was rejected (a valid vertex met before an out-of-range one) must not influence later requests
+    // an earlier request that was rejected (the valid vertex PRE_REJECT met before an out-of-range one) must not influence later requests
     if (n) {
-        std::unordered_set<VertexIndex> bad; bad.insert(nd(n)); bad.insert(n + nd(2));
+        std::unordered_set<VertexIndex> bad; { unsigned bs[2]; bs[0] = PRE_REJECT; bs[1] = n; vh_set_with_order(bad, bs, 2); }
         bool threw = false;
-        try { if (ndb()) (void)algorithms::getSubgraph(g, bad); else (void)algorithms::getSubgraphWithRemap(g, bad); } catch (std::out_of_range &) { threw = true; }
+#if Q == 0
+        try { (void)algorithms::getSubgraph(g, bad); } catch (std::out_of_range &) { threw = true; }
+#else
+        try { (void)algorithms::getSubgraphWithRemap(g, bad); } catch (std::out_of_range &) { threw = true; }
+#endif
         CHECK(threw, "a vertex subset with an out-of-range member is rejected with std::out_of_range");
         REACH("a rejected request preceded this one");
     }
